@@ -82,6 +82,7 @@ type run10 struct {
 	k         int
 	lastErr   bool
 	bpSteps   []int // indices (in non-scribble numbering) of backprop steps
+	held      []heldErr
 	stepRoots map[int]int
 }
 
@@ -213,6 +214,13 @@ func (r *run10) upstream(root int) map[int]bool {
 }
 
 type snap10 struct{ val, pub, deep uint64 }
+
+// an error value returned by a rejected call and still held by the caller
+type heldErr struct {
+	err   error
+	text  string
+	where string
+}
 
 func (r *run10) snapshot() map[int]snap10 {
 	s := make(map[int]snap10, len(r.order))
@@ -433,11 +441,34 @@ func (r *run10) execSteps(sc *sim.Scenario, check bool, final bool) {
 			err := tensor.BackPropagate(r.pool.T[root])
 			h = h.Str(fmt.Sprint(err))
 			may = r.upstream(root)
+			if r.pool.T[root].Gradient() == nil {
+				// every tracked root receives a gradient: this one was untracked and
+				// the call was turned down, so nothing at all may have changed
+				may = map[int]bool{}
+			}
 			r.bpSteps = append(r.bpSteps, k)
 			r.stepRoots[k] = root
 		case "reset":
 			r.pool.T[st.In[0]].ResetGradContext(st.B)
 			may[st.In[0]] = true
+		case "bad":
+			// a rejected call: an error, no result, no trace on any tensor
+			if badIndexOf(st.Tag) < 0 || len(st.In) != 1 {
+				r.discard = "malformed"
+				return
+			}
+			oracle, msg, errText, held := badVerdict(st.Tag, st.N, r.pool.T[st.In[0]])
+			if oracle == "harness" {
+				r.discard = "malformed"
+				return
+			}
+			if oracle != "" {
+				r.fail(oracle, "%s: %s", where, msg)
+				return
+			}
+			h = h.Str(errText)
+			r.held = append(r.held, heldErr{held, errText, where})
+			r.fired["invalid-call/"+st.Tag]++
 		default:
 			res := r.pool.Apply(st)
 			r.reg(k, res.Crossed)
@@ -475,6 +506,14 @@ func (r *run10) execSteps(sc *sim.Scenario, check bool, final bool) {
 	}
 	if !final {
 		return
+	}
+	if check {
+		for _, he := range r.held {
+			if he.err != nil && he.err.Error() != he.text {
+				r.fail("rejected-call-error-changed", "%s: the error value the caller still holds read %q when it was returned and reads %q at the end of the run", he.where, he.text, he.err.Error())
+				return
+			}
+		}
 	}
 	// final observation: everything
 	sim.Pause()
@@ -573,7 +612,7 @@ func (prop c10) Execute(sc *sim.Scenario) *sim.Outcome {
 		if st.Op == "scribble" {
 			continue
 		}
-		sig = sig.Str(st.Op).Int(len(st.I)).Int(len(st.R)).Int(len(st.F))
+		sig = sig.Str(st.Op).Str(st.Tag).Int(len(st.I)).Int(len(st.R)).Int(len(st.F))
 		out.Probes["op/"+st.Op]++
 		for _, id := range st.In {
 			sig = sig.Int(id)
@@ -587,6 +626,9 @@ func (prop c10) Execute(sc *sim.Scenario) *sim.Outcome {
 	}
 	for _, o := range base.obs {
 		lh = lh.U64(o)
+	}
+	for k, n := range base.fired {
+		out.Faults[k] += n
 	}
 	if base.viol != nil {
 		out.Violation = base.viol
@@ -730,6 +772,7 @@ func (c10) Generate(r *sim.Rand, tier string) *sim.Scenario {
 	}
 	shapes := map[int][]int{}
 	var order []int
+	badCalls := r.Bool(0.5) // fault invalid-call: rejected calls between the valid ones
 	add := func(st sim.Step) bool {
 		// execute live, append on success
 		tmp := &sim.Scenario{Cfg: sc.Cfg, Data: sc.Data, Steps: []sim.Step{st}}
@@ -866,6 +909,11 @@ func (c10) Generate(r *sim.Rand, tier string) *sim.Scenario {
 				id := order[r.Intn(len(order))]
 				add(sim.Step{Op: "update", In: []int{id}, Out: ids.New()})
 			}
+			k++
+		case x < 97 && badCalls:
+			id := order[len(order)-1-r.Intn(minInt(6, len(order)))]
+			tag, n := pickBad(r, shapes[id])
+			add(sim.Step{Op: "bad", In: []int{id}, Tag: tag, N: n, Out: -1})
 			k++
 		default:
 			id := order[r.Intn(len(order))]
